@@ -1,5 +1,5 @@
-//@ unit: C11.enable_all
-//@ props: C11
+//@ unit: C01.enable_all
+//@ props: C01
 //@ source: src/debugger/breakpoint.rs
 //@ fn: BreakpointRegistry::enable_all_breakpoints (per-template loop body)
 //@ assume: `for (addr, uninit_brkpt) in disabled_breakpoints.drain()` visits every not-installed template once with its key (std HashMap::drain, the map was moved out of the registry with mem::take before); the loop body is spliced verbatim into `enable_one` (`continue;` -> `return;`); try_into_brkpt succeeds exactly for templates whose place is resolvable in the current process image (`resolvable`, e.g. the library is mapped) and keeps the number; HashMap::insert per vstd; add_and_enable is external (a failing ptrace patch is not modelled)
